@@ -19,7 +19,9 @@ void vt_close(void);
 void vt_word(uint64_t h);
 void vt_words(const uint64_t *hs, int64_t n);          /* [[..],[..]] all entries */
 void vt_words_nz(const uint64_t *hs, int64_t n);       /* only non-zero entries */
-void vt_i64(int64_t v);                                 /* [hi, lo] with lo 30 bits, sign in hi */
+void vt_i64(int64_t v);
+void vt_big(int64_t v);                                 /* {"s":sign,"l":[5 limbs base 16807]} */
+#define VT_SENTINEL 0xAAAAAAAAAAAAAAAAULL                                 /* [hi, lo] with lo 30 bits, sign in hi */
 
 /* deterministic RNG */
 void vt_seed(uint64_t s);
